@@ -26,6 +26,10 @@ use upgrader::{Upgrader, UpgraderClient};
 
 pub type Call = Rc<dyn Fn(&Env) -> Result<(), String>>;
 
+pub fn one(c: Call) -> Vec<Call> {
+    vec![c]
+}
+
 pub struct Ep {
     /// the statement leaves open whether the holder's own call succeeds in this state
     /// (e.g. owner minting while the owner is not a minter); everybody else must still fail
@@ -33,7 +37,8 @@ pub struct Ep {
     pub name: String,
     pub role: &'static str,
     pub call: Call,
-    pub other_args: Option<Call>,
+    /// the same call with one argument changed each
+    pub other_args: Vec<Call>,
     pub beneficiary: Option<Address>,
     /// state preparation inside the checkpoint (set-up traffic), e.g. open the migration window
     pub prep: Option<Rc<dyn Fn(&mut U)>>,
@@ -76,7 +81,7 @@ fn common_eps(prefix: &str, addr: &Address, newcomer: &Address, other: &Address,
         name: format!("{}.transfer_ownership", prefix),
         role: "owner",
         call: Rc::new(move |env: &Env| flat(OwnableClient::new(env, &a).try_transfer_ownership(&n))),
-        other_args: Some(Rc::new(move |env: &Env| flat(OwnableClient::new(env, &a2).try_transfer_ownership(&o2)))),
+        other_args: one(Rc::new(move |env: &Env| flat(OwnableClient::new(env, &a2).try_transfer_ownership(&o2)))),
         beneficiary: Some(newcomer.clone()),
         prep: None,
     });
@@ -89,7 +94,7 @@ fn common_eps(prefix: &str, addr: &Address, newcomer: &Address, other: &Address,
             name: format!("{}.transfer_ownership(to-current-owner)", prefix),
             role: "owner",
             call: Rc::new(move |env: &Env| flat(OwnableClient::new(env, &a).try_transfer_ownership(&c))),
-            other_args: None,
+            other_args: vec![],
             beneficiary: None,
             prep: None,
         });
@@ -100,7 +105,7 @@ fn common_eps(prefix: &str, addr: &Address, newcomer: &Address, other: &Address,
         name: format!("{}.upgrade", prefix),
         role: "owner",
         call: Rc::new(move |env: &Env| flat(UpgradableClient::new(env, &a).try_upgrade(&native_hash(env)))),
-        other_args: Some(Rc::new(move |env: &Env| flat(UpgradableClient::new(env, &a2).try_upgrade(&oh)))),
+        other_args: one(Rc::new(move |env: &Env| flat(UpgradableClient::new(env, &a2).try_upgrade(&oh)))),
         beneficiary: None,
         prep: None,
     });
@@ -109,7 +114,7 @@ fn common_eps(prefix: &str, addr: &Address, newcomer: &Address, other: &Address,
         name: format!("{}.migrate", prefix),
         role: "owner",
         call: migrate_call(addr, migrate_string),
-        other_args: None,
+        other_args: vec![],
         beneficiary: None,
         prep: Some(open_window(addr)),
     });
@@ -182,9 +187,10 @@ pub fn matrix(rep: &mut Report, u: &mut U, ep: &Ep, holder: &Address, formers: &
     }
     cands.push(("stranger".into(), Auth::AllBy(stranger.clone()), false));
     cands.push(("nobody".into(), Auth::Nobody, false));
-    if ep.other_args.is_some() {
+    for _ in &ep.other_args {
         cands.push(("holder-other-arguments".into(), Auth::Nobody, false)); // forest filled below
     }
+    let mut variant = 0usize;
     let mut ok_all = true;
     for (class, auth, must_ok) in cands {
         let ck = u.checkpoint();
@@ -192,7 +198,9 @@ pub fn matrix(rep: &mut Report, u: &mut U, ep: &Ep, holder: &Address, formers: &
             p(u);
         }
         let auth = if class == "holder-other-arguments" {
-            let (_, forest) = u.record(&**ep.other_args.as_ref().unwrap());
+            let call = ep.other_args[variant].clone();
+            variant += 1;
+            let (_, forest) = u.record(&*call);
             // keep only the holder's trees: the right principal, but for other arguments
             let h = sc_addr(holder);
             Auth::Forest(forest.into_iter().filter(|(a, _)| *a == h).collect())
@@ -281,7 +289,7 @@ pub fn run(ctx: &Ctx, rep: &mut Report) {
                 let to_self_op = {
                     let (a, c) = (g.addr.clone(), operator.clone());
                     Ep { holder_may_fail: false, name: "gateway.transfer_operatorship(to-current-operator)".into(), role: "operator",
-                         call: Rc::new(move |env: &Env| flat(OperatableClient::new(env, &a).try_transfer_operatorship(&c))), other_args: None, beneficiary: None, prep: None }
+                         call: Rc::new(move |env: &Env| flat(OperatableClient::new(env, &a).try_transfer_operatorship(&c))), other_args: vec![], beneficiary: None, prep: None }
                 };
                 matrix(rep, &mut u, &to_self_op, &operator, &operators[..operators.len() - 1], Some(&owner), &stranger, history);
                 let op_eps = vec![
@@ -290,7 +298,7 @@ pub fn run(ctx: &Ctx, rep: &mut Report) {
                         name: "gateway.transfer_operatorship".into(),
                         role: "operator",
                         call: Rc::new(move |env: &Env| flat(OperatableClient::new(env, &a).try_transfer_operatorship(&n))),
-                        other_args: Some(Rc::new(move |env: &Env| flat(OperatableClient::new(env, &a2).try_transfer_operatorship(&o2)))),
+                        other_args: one(Rc::new(move |env: &Env| flat(OperatableClient::new(env, &a2).try_transfer_operatorship(&o2)))),
                         beneficiary: Some(newcomer.clone()),
                         prep: None,
                     },
@@ -305,7 +313,7 @@ pub fn run(ctx: &Ctx, rep: &mut Report) {
                             name: "gateway.rotate_signers(bypass)".into(),
                             role: "operator",
                             call: Rc::new(move |env: &Env| flat(AxelarGatewayClient::new(env, &a).try_rotate_signers(&sdk_signers(env, &cand), &sdk_proof(env, &plan), &true))),
-                            other_args: Some(Rc::new(move |env: &Env| flat(AxelarGatewayClient::new(env, &a2).try_rotate_signers(&sdk_signers(env, &cand2), &sdk_proof(env, &plan2), &true)))),
+                            other_args: one(Rc::new(move |env: &Env| flat(AxelarGatewayClient::new(env, &a2).try_rotate_signers(&sdk_signers(env, &cand2), &sdk_proof(env, &plan2), &true)))),
                             beneficiary: None,
                             prep: None,
                         }
@@ -322,7 +330,7 @@ pub fn run(ctx: &Ctx, rep: &mut Report) {
                         name: "gateway.rotate_signers(bypass,older-retained-set)".into(),
                         role: "operator",
                         call: Rc::new(move |env: &Env| flat(AxelarGatewayClient::new(env, &a).try_rotate_signers(&sdk_signers(env, &cand), &sdk_proof(env, &plan), &true))),
-                        other_args: Some(Rc::new(move |env: &Env| flat(AxelarGatewayClient::new(env, &a2).try_rotate_signers(&sdk_signers(env, &cand2), &sdk_proof(env, &plan2), &true)))),
+                        other_args: one(Rc::new(move |env: &Env| flat(AxelarGatewayClient::new(env, &a2).try_rotate_signers(&sdk_signers(env, &cand2), &sdk_proof(env, &plan2), &true)))),
                         beneficiary: None,
                         prep: None,
                     }
@@ -386,11 +394,31 @@ pub fn run(ctx: &Ctx, rep: &mut Report) {
                     })
                 };
                 let c_eps = vec![
-                    Ep { holder_may_fail: false, name: "gas-service.collect_fees(receiver=collector)".into(), role: "gas collector", call: mk_self(10, false), other_args: Some(mk_self(11, false)), beneficiary: None, prep: None },
-                    Ep { holder_may_fail: false, name: "gas-service.refund(receiver=collector)".into(), role: "gas collector", call: mk_self(10, true), other_args: Some(mk_self(11, true)), beneficiary: None, prep: None },
-                    Ep { holder_may_fail: false, name: "gas-service.collect_fees".into(), role: "gas collector", call: mk(10, false), other_args: Some(mk(11, false)), beneficiary: Some(receiver.clone()), prep: None },
-                    Ep { holder_may_fail: false, name: "gas-service.refund".into(), role: "gas collector", call: mk(10, true), other_args: Some(mk(11, true)), beneficiary: Some(receiver.clone()), prep: None },
+                    Ep { holder_may_fail: false, name: "gas-service.collect_fees(receiver=collector)".into(), role: "gas collector", call: mk_self(10, false), other_args: one(mk_self(11, false)), beneficiary: None, prep: None },
+                    Ep { holder_may_fail: false, name: "gas-service.refund(receiver=collector)".into(), role: "gas collector", call: mk_self(10, true), other_args: one(mk_self(11, true)), beneficiary: None, prep: None },
+                    Ep { holder_may_fail: false, name: "gas-service.collect_fees".into(), role: "gas collector", call: mk(10, false), other_args: one(mk(11, false)), beneficiary: Some(receiver.clone()), prep: None },
+                    Ep { holder_may_fail: false, name: "gas-service.refund".into(), role: "gas collector", call: mk(10, true), other_args: one(mk(11, true)), beneficiary: Some(receiver.clone()), prep: None },
                 ];
+                let mut c_eps = c_eps;
+                {
+                    // one argument changed at a time: the receiver, the message id
+                    let mk_to = |to: Address, refund: bool, msg: &'static [u8]| -> Call {
+                        let (a, t) = (gs.clone(), tok.addr.clone());
+                        Rc::new(move |env: &Env| {
+                            let c = AxelarGasServiceClient::new(env, &a);
+                            let tk = Token { address: t.clone(), amount: 10 };
+                            if refund {
+                                flat(c.try_refund(&sstr(env, msg), &to, &tk))
+                            } else {
+                                flat(c.try_collect_fees(&to, &tk))
+                            }
+                        })
+                    };
+                    let n = c_eps.len();
+                    c_eps[n - 2].other_args.push(mk_to(other.clone(), false, b"msg-1"));
+                    c_eps[n - 1].other_args.push(mk_to(other.clone(), true, b"msg-1"));
+                    c_eps[n - 1].other_args.push(mk_to(receiver.clone(), true, b"msg-2"));
+                }
                 for ep in &c_eps {
                     matrix(rep, &mut u, ep, &collector, &[], Some(&owner), &stranger, history);
                 }
@@ -425,7 +453,7 @@ pub fn run(ctx: &Ctx, rep: &mut Report) {
                     name: "operators.add_operator".into(),
                     role: "owner",
                     call: Rc::new(move |env: &Env| flat(AxelarOperatorsClient::new(env, &a).try_add_operator(&c))),
-                    other_args: Some(Rc::new(move |env: &Env| flat(AxelarOperatorsClient::new(env, &a2).try_add_operator(&o2)))),
+                    other_args: one(Rc::new(move |env: &Env| flat(AxelarOperatorsClient::new(env, &a2).try_add_operator(&o2)))),
                     beneficiary: Some(cand.clone()),
                     prep: None,
                 });
@@ -435,7 +463,7 @@ pub fn run(ctx: &Ctx, rep: &mut Report) {
                     name: "operators.remove_operator".into(),
                     role: "owner",
                     call: Rc::new(move |env: &Env| flat(AxelarOperatorsClient::new(env, &a).try_remove_operator(&m))),
-                    other_args: None,
+                    other_args: vec![],
                     beneficiary: Some(member.clone()),
                     prep: None,
                 });
@@ -469,8 +497,8 @@ pub fn run(ctx: &Ctx, rep: &mut Report) {
                         }
                     })
                 };
-                eps.push(Ep { holder_may_fail: false, name: "its.set_trusted_chain".into(), role: "owner", call: mk(b"avalanche", true), other_args: Some(mk(b"polygon", true)), beneficiary: None, prep: None });
-                eps.push(Ep { holder_may_fail: false, name: "its.remove_trusted_chain".into(), role: "owner", call: mk(b"ethereum", false), other_args: None, beneficiary: None, prep: None });
+                eps.push(Ep { holder_may_fail: false, name: "its.set_trusted_chain".into(), role: "owner", call: mk(b"avalanche", true), other_args: one(mk(b"polygon", true)), beneficiary: None, prep: None });
+                eps.push(Ep { holder_may_fail: false, name: "its.remove_trusted_chain".into(), role: "owner", call: mk(b"ethereum", false), other_args: vec![], beneficiary: None, prep: None });
                 let stranger = w.stranger.clone();
                 let gw_owner = sc_addr(&w.gs_collector);
                 let other_role = addr_of(&w.u.env, &gw_owner);
@@ -502,7 +530,7 @@ pub fn run(ctx: &Ctx, rep: &mut Report) {
                     name: "interchain-token.set_admin".into(),
                     role: "owner",
                     call: Rc::new(move |env: &Env| flat(InterchainTokenClient::new(env, &a).try_set_admin(&n))),
-                    other_args: Some(Rc::new(move |env: &Env| flat(InterchainTokenClient::new(env, &a2).try_set_admin(&o2)))),
+                    other_args: one(Rc::new(move |env: &Env| flat(InterchainTokenClient::new(env, &a2).try_set_admin(&o2)))),
                     beneficiary: Some(newcomer.clone()),
                     prep: None,
                 });
@@ -512,7 +540,7 @@ pub fn run(ctx: &Ctx, rep: &mut Report) {
                     name: "interchain-token.add_minter".into(),
                     role: "owner",
                     call: Rc::new(move |env: &Env| flat(InterchainTokenClient::new(env, &a).try_add_minter(&n))),
-                    other_args: Some(Rc::new(move |env: &Env| flat(InterchainTokenClient::new(env, &a2).try_add_minter(&o2)))),
+                    other_args: one(Rc::new(move |env: &Env| flat(InterchainTokenClient::new(env, &a2).try_add_minter(&o2)))),
                     beneficiary: Some(newcomer.clone()),
                     prep: None,
                 });
@@ -522,7 +550,7 @@ pub fn run(ctx: &Ctx, rep: &mut Report) {
                     name: "interchain-token.remove_minter".into(),
                     role: "owner",
                     call: Rc::new(move |env: &Env| flat(InterchainTokenClient::new(env, &a).try_remove_minter(&m))),
-                    other_args: None,
+                    other_args: vec![],
                     beneficiary: Some(minter.clone()),
                     prep: None,
                 });
@@ -535,7 +563,7 @@ pub fn run(ctx: &Ctx, rep: &mut Report) {
                     name: "interchain-token.mint".into(),
                     role: "owner",
                     call: Rc::new(move |env: &Env| flat(InterchainTokenClient::new(env, &a).try_mint(&n, &5))),
-                    other_args: Some(Rc::new(move |env: &Env| flat(InterchainTokenClient::new(env, &a2).try_mint(&n2, &6)))),
+                    other_args: one(Rc::new(move |env: &Env| flat(InterchainTokenClient::new(env, &a2).try_mint(&n2, &6)))),
                     beneficiary: Some(newcomer.clone()),
                     prep: Some(Rc::new(move |u: &mut U| {
                         let (t, o) = (tk2.clone(), owner_c.clone());
@@ -552,7 +580,7 @@ pub fn run(ctx: &Ctx, rep: &mut Report) {
                         name: "interchain-token.mint(owner-not-a-minter)".into(),
                         role: "owner",
                         call: Rc::new(move |env: &Env| flat(InterchainTokenClient::new(env, &a).try_mint(&n, &5))),
-                        other_args: None,
+                        other_args: vec![],
                         beneficiary: Some(newcomer.clone()),
                         prep: Some(Rc::new(move |u: &mut U| {
                             let (t, o) = (tk3.clone(), owner3.clone());
@@ -588,7 +616,7 @@ pub fn run(ctx: &Ctx, rep: &mut Report) {
                         flat_any(UpgraderClient::new(env, &up).try_upgrade(&t, &sstr(env, ver), &native_hash(env), &data))
                     })
                 };
-                let ep = Ep { holder_may_fail: false, name: "upgrader.upgrade".into(), role: "target's owner", call: mk(b"5.0.0"), other_args: Some(mk(b"6.0.0")), beneficiary: None, prep: None };
+                let ep = Ep { holder_may_fail: false, name: "upgrader.upgrade".into(), role: "target's owner", call: mk(b"5.0.0"), other_args: one(mk(b"6.0.0")), beneficiary: None, prep: None };
                 matrix(rep, &mut u, &ep, &owner, &owners[..owners.len() - 1], None, &stranger, history);
             }
         }
